@@ -220,11 +220,25 @@ fn check_alt(
     local: &mut BTreeMap<String, u64>,
     deep: bool,
     completions: &FpSet,
+    warm: Option<&Proof>,
 ) {
     let (mut rc, out) = Core::from_image(img.clone(), CacheCfg::Off);
     if !out.is_ok() {
         return;
     }
+    // live mode: an honest proof is applied first on the same instance (no reopen in between),
+    // so the altered proof meets unflushed in-memory state
+    let live_ctx;
+    let sc = if let Some(wp) = warm {
+        if !matches!(apply_proof(rc.c(), wp), Out::Ok(true)) {
+            return;
+        }
+        let before = observe(rc.c(), &sc.hp, &sc.gp);
+        live_ctx = StateCtx { hp: sc.hp.clone(), gp: sc.gp.clone(), before };
+        &live_ctx
+    } else {
+        sc
+    };
     let res = apply_proof(rc.c(), &alt.proof);
     let verdict = match &res {
         Out::Ok(true) => "accepted",
@@ -389,7 +403,7 @@ pub fn sweep(
                             nalt += 1;
                             classes.insert(crate::env::fp128(&[alt.class.as_bytes(), c03_req_sig(&req).as_bytes(), &[rm.len as u8, rm.held.len() as u8]]));
                             crate::sup::tick();
-                            check_alt(&mut w, whist, pairs, img, rm, &sc, &req, alt, rep, &mut local, true, completions);
+                            check_alt(&mut w, whist, pairs, img, rm, &sc, &req, alt, rep, &mut local, true, completions, None);
                         }
                     }
                 }
@@ -397,6 +411,80 @@ pub fn sweep(
                 stats.add("honest_proofs", nproofs);
                 for (k, v) in local {
                     stats.add(&format!("verdict {k}"), v);
+                }
+                crate::sup::clear_case();
+            });
+        }
+    });
+}
+
+/// Live variant: from every state, one honest warm-up request is applied on the instance and the
+/// altered proofs of the requests enabled afterwards are applied to that same live instance.
+pub fn sweep_live(whist: &[Op], states: &[(Image, ReplicaModel)], bits: Bits, rep: &Report, stats: &Stats, classes: &FpSet) {
+    let idx = AtomicUsize::new(0);
+    let pairs = signed_pairs(whist);
+    let pairs = &pairs;
+    let completions = FpSet::default();
+    let completions = &completions;
+    std::thread::scope(|s| {
+        for _ in 0..nthreads().min(states.len()).max(1) {
+            s.spawn(|| {
+                let mut w = c03::build_writer(whist);
+                let mut fc = build_forge_ctx(whist);
+                let mut local: BTreeMap<String, u64> = BTreeMap::new();
+                let mut nalt = 0u64;
+                loop {
+                    let i = idx.fetch_add(1, Ordering::Relaxed);
+                    if i >= states.len() {
+                        break;
+                    }
+                    let (img, rm) = &states[i];
+                    crate::sup::set_case(&json!({"prop": "C04", "what": "alt-live", "writer": whist,
+                        "replica": {"len": rm.len, "byte_len": rm.byte_len, "held": rm.held}, "image": c03::image_hex(img)}).to_string());
+                    let (hp, gp) = probes_for(w.model.len(), false);
+                    // warm-up requests: the first upgrade (if behind) and up to two block requests
+                    let warms: Vec<Req> = c03::actions(rm, &w.model, &w.tree, Seeks::None)
+                        .into_iter()
+                        .filter(|r| r.hash.is_none() && (r.up.is_none() || r.up == Some(w.model.len())) && r.block.map(|b| b < 2).unwrap_or(true))
+                        .take(3)
+                        .collect();
+                    for warm in warms {
+                        let (mut rc1, out) = Core::from_image(img.clone(), CacheCfg::Off);
+                        if !out.is_ok() {
+                            continue;
+                        }
+                        let Out::Ok(cw) = concretize(rc1.c(), &warm) else { continue };
+                        let Out::Ok(Some(pw)) = create_proof(w.core.c(), &cw) else { continue };
+                        if !matches!(apply_proof(rc1.c(), &pw), Out::Ok(true)) {
+                            continue;
+                        }
+                        let mut m1 = rm.clone();
+                        if warm.up.is_some() {
+                            m1.len = w.model.len();
+                            m1.byte_len = w.model.byte_len();
+                        }
+                        if let Some(b) = warm.block {
+                            m1.held.insert(b);
+                        }
+                        let sc = StateCtx { hp: hp.clone(), gp: gp.clone(), before: observe(rc1.c(), &hp, &gp) };
+                        for req in c03::actions(&m1, &w.model, &w.tree, Seeks::None) {
+                            let Out::Ok(creq) = concretize(rc1.c(), &req) else { continue };
+                            let Out::Ok(Some(proof)) = create_proof(w.core.c(), &creq) else { continue };
+                            let mut alts = alter::alterations(&proof, bits, &fc.foreign_node);
+                            alts.extend(forgeries(&w, &mut fc, &creq, &proof));
+                            for alt in &alts {
+                                nalt += 1;
+                                classes.insert(crate::env::fp128(&[b"live", alt.class.as_bytes(), c03_req_sig(&req).as_bytes(), &[m1.len as u8, m1.held.len() as u8]]));
+                                crate::sup::tick();
+                                check_alt(&mut w, whist, pairs, img, &m1, &sc, &req, alt, rep, &mut local, false, completions, Some(&pw));
+                            }
+                        }
+                    }
+                }
+                stats.add("alterations", nalt);
+                stats.add("live_alterations", nalt);
+                for (k, v) in local {
+                    stats.add(&format!("verdict live:{k}"), v);
                 }
                 crate::sup::clear_case();
             });
@@ -434,6 +522,9 @@ pub fn run(tier: &str) -> i32 {
         let r = c03::saturate("C04", whist, vec![c03::empty_replica()], Seeks::None, true, false, &tmp, &stats, &g);
         nstates += r.kept.len();
         sweep(whist, &r.kept, *bits, *seeks, None, &rep, &stats, &classes);
+        if c03::build_writer(whist).model.len() <= if quick { 4 } else { 6 } {
+            sweep_live(whist, &r.kept, Bits::Few, &rep, &stats, &classes);
+        }
         // growth: the writer appends k more blocks; every earlier replica state (which holds the
         // old head and its signature) receives the altered / forged proofs of the longer writer
         let wn = c03::build_writer(whist).model.len();
@@ -465,6 +556,7 @@ pub fn run(tier: &str) -> i32 {
         "rule": "every replica state reachable by honest replication for each writer shape x every honest proof enabled there (all well-formed requests) x every single-field alteration (bit flips of value / every node hash / signature per the bits mode; +-1 on fork, indices, sizes, seek bytes, upgrade start/length; node drop/dup/swap/insert-foreign at every position; section removal; sizes of the bottom node of hash-only and seek sections excluded) + forgeries (other-key signature over genuine head, foreign writer's proof and signature, substituted block with recomputed ancestors under old signature and under another key, genuine signature for another length). distinct_nontrivial = distinct (alteration class, request kind, replica length, held count) combinations",
         "replica_states": nstates,
         "honest_proofs_altered": stats.get("honest_proofs"),
+        "alterations_applied_to_a_live_instance_after_an_honest_step": stats.get("live_alterations"),
         "shapes": shape_json,
         "verdicts_by_class": verdicts,
         "samples": [
